@@ -28,11 +28,7 @@ def bswap_of(e):
     m = re.match(r'^@(?:__libec_bswap_32|llvm\.bswap\.i32|__bswap_32)\((.*)\)$', e)
     return m.group(1) if m else None
 
-def run(ctx):
-    P = ctx.program()
-    cg = callgraph.get(P)
-    E = effects.get(P)
-
+def run_r09b(ctx, P):
     # ---------------- R09b
     r = ctx.rule('R09b', 'is_invalid_fragment_header: path obligations o1-o6',
                  'accept(header) must be exactly: magic either order, version != 0, and for >= 1.2.0 a full 32-bit CRC match')
@@ -134,6 +130,14 @@ def run(ctx):
     if nvalid < 4:
         r.undecided('valid paths', msg=f'only {nvalid} valid paths (native/swapped x old/new expected)')
     r.require_min(12)
+
+
+def run(ctx):
+    P = ctx.program()
+    cg = callgraph.get(P)
+    E = effects.get(P)
+
+    run_r09b(ctx, P)
 
     # ---------------- R09a gating
     r = ctx.rule('R09a', 'header validation dominates the first consumer in decode / reconstruct / get_fragment_metadata; failing edge => -EBADHEADER',
